@@ -47,7 +47,13 @@ func init() {
 	register(&Rule{ID: "C05.6", Prop: "C05", Min: 3,
 		Text: "decoded header fields do not alias the pooled read buffer: nothing derived without copying from a ByteBuffer's bytes is installed as the message's service method or body (a later frame read into the same buffer would rewrite an earlier message)",
 		Run:  runC05_6})
+	register(&Rule{ID: "C05.7", Prop: "C05", Min: 2,
+		Text: "a frame's filter pipe is undone in the reverse of the order it was applied (same obligations as C12.1): XferPipe.OnPack walks the list downwards, OnUnpack upwards - with the same direction every pipe of two different filters fails to round-trip",
+		Run:  runC12_1})
 	// ---- C06
+	register(&Rule{ID: "C06.7", Prop: "C06", Min: 5,
+		Text: "the limit is applied to at least what is allocated: for every wire-sized receive buffer, allocated size <= the quantity the dominating error-checked SetSize examined, proved symbolically (linear forms over SSA atoms, intervals refined by dominating comparisons); arithmetic or a conversion that may wrap in its type on the way to the check breaks the proof (a length of 0xFFFFFFFF+4 passes any limit)",
+		Run:  runC06_7})
 	register(&Rule{ID: "C06.1", Prop: "C06", Min: 5,
 		Text: "limit before allocation: on every receive path a buffer is sized from a wire quantity (ByteBuffer.ChangeLen / make with a non-constant length) only after an error-checked Message.SetSize (the per-message read limit) on that frame",
 		Run:  runC06_1})
@@ -1086,4 +1092,110 @@ func (p *Prog) staticReachNoGo(fn, target *ssa.Function, depth int, seen map[*ss
 		}
 	}
 	return false
+}
+
+// ---------------------------------------------------------------- C06.7
+
+func runC06_7(c *Ctx) {
+	p := c.P
+	setSize := p.MethodObj(Root+"/socket", "Message", "SetSize")
+	sizeM := p.MethodObj(Root+"/socket", "Message", "Size")
+	changeLen := p.MethodObj(Root+"/utils", "ByteBuffer", "ChangeLen")
+	minusFn := p.FnOpt(Root+"/socket", "", "minus")
+	if minusFn != nil && !verifyMinus(minusFn) {
+		c.Viol("minus() subtracts only non-negative amounts", p.Pos(minusFn.Pos()), "socket.minus no longer returns a-b only for b >= 0 and a-b >= 0: the raw protocol's remaining-length arithmetic can grow past the checked frame size")
+		minusFn = nil
+	} else if minusFn != nil {
+		c.Hold("minus() subtracts only non-negative amounts", p.Pos(minusFn.Pos()), "returns a-b on the edges b >= 0 and a-b >= 0, a otherwise")
+	}
+	n := 0
+	seenFn := map[*ssa.Function]bool{}
+	for _, im := range protoImpls(p) {
+		if im.unpack == nil {
+			continue
+		}
+		for _, fn := range recvReach(p, im.unpack) {
+			if seenFn[fn] {
+				continue
+			}
+			seenFn[fn] = true
+			idx := map[string]int{}
+			Instrs(fn, func(i ssa.Instruction) {
+				var size ssa.Value
+				what := ""
+				switch x := i.(type) {
+				case *ssa.Call:
+					if CalleeObj(x) == changeLen {
+						size = CallArgs(x)[0]
+						what = "ByteBuffer.ChangeLen"
+					}
+				case *ssa.MakeSlice:
+					if b, ok := x.Type().Underlying().(*types.Slice); ok {
+						if bt, ok := b.Elem().Underlying().(*types.Basic); ok && bt.Kind() == types.Uint8 {
+							size = x.Len
+							what = "make([]byte, n)"
+						}
+					}
+				}
+				if size == nil {
+					return
+				}
+				if _, isConst := ConstIntOf(size); isConst {
+					return
+				}
+				key := what + " in " + FnName(fn)
+				idx[key]++
+				if idx[key] > 1 {
+					key = fmt.Sprintf("%s#%d", key, idx[key])
+				}
+				// the dominating checks in this function
+				type chk struct {
+					call ssa.CallInstruction
+					nil_ *ssa.BasicBlock
+				}
+				var checks []chk
+				for _, ss := range CallsTo(fn, setSize) {
+					for _, e := range NilCmpEdges(fn, func(v ssa.Value) bool { return sameViaCell(v, ss.(ssa.Value)) || v == ss.(ssa.Value) }) {
+						if BlockDominatesInstr(e.Nil, i) {
+							checks = append(checks, chk{ss, e.Nil})
+						}
+					}
+				}
+				if len(checks) == 0 {
+					return // sized in a helper: C06.1 decides the ordering through the callers; nothing to relate here
+				}
+				n++
+				proved := false
+				why := ""
+				for _, ck := range checks {
+					eng := &linEngine{p: p, fn: fn, at: i.Block(), slack: map[ssa.Value]bool{}, busy: map[ssa.Value]bool{}, minusFn: minusFn}
+					eng.SizeKey = ck.call.(ssa.Value)
+					eng.sizeOf = func(v ssa.Value) bool {
+						call, ok := v.(*ssa.Call)
+						return ok && CalleeObj(call) == sizeM && CallRecv(call) == CallRecv(ck.call) && BlockDominatesInstr(ck.nil_, call)
+					}
+					la := eng.lin(size)
+					var le linForm
+					if _, usesSize := la.atoms[eng.SizeKey]; usesSize {
+						le = eng.atom(eng.SizeKey)
+					} else {
+						le = eng.lin(CallArgs(ck.call)[0])
+					}
+					d := le.add(la, -1)
+					lo := eng.lower(d)
+					if lo >= 0 {
+						proved = true
+						why = fmt.Sprintf("checked - allocated >= %d (SetSize at %s)", lo, p.InstrPos(ck.call))
+						break
+					}
+					why = fmt.Sprintf("checked - allocated has no non-negative lower bound (SetSize at %s; %d symbolic term(s))", p.InstrPos(ck.call), len(d.atoms))
+				}
+				c.fact("linear-forms+intervals")
+				c.Check(proved, key, p.InstrPos(i), why, "the receive buffer is not provably bounded by the quantity the read limit examined ("+why+"): a crafted length (wrap-around, repeated or negative header value) passes the limit while a larger buffer is allocated")
+			})
+		}
+	}
+	if n < 4 {
+		c.Undec("wire-sized allocations with a local check", "", fmt.Sprintf("found %d, expected >= 4", n))
+	}
 }
